@@ -182,8 +182,16 @@ def c14(case, impl):
         for k, (w, g) in enumerate(zip(want, kinds)):
             if w != g:
                 return f"RUN {callee}: argument {k + 1} is {g}, parameter is {w} | {line.strip()[:80]}"
-    # a record passed between procedures must be declared field for field alike in each of them
+    # calls between the bundled library procedures themselves: the argument count must be the callee's
     text = out_text(impl)
+    if text and flag(case, 5) and not flag(case, 6):
+        for name, lines in T.split_procedures(text.rstrip("\n"))[:-1]:
+            for line in lines:
+                for callee, args, _ in T.run_calls(T.code_tokens(line.rstrip("\r"))):
+                    if callee in sigs and args is not None and len(args) != len(sigs[callee]):
+                        return (f"library procedure {name}: RUN {callee} with {len(args)} arguments for "
+                                f"{len(sigs[callee])} parameters | {line.strip()[:80]}")
+    # a record passed between procedures must be declared field for field alike in each of them
     if text:
         seen = {}
         for line in text.split("\n"):
@@ -497,6 +505,11 @@ def c11_cli(case, impl):
     data = unhex(impl[3:])
     if b"\n" in data:
         return "the output file contains LF line ends"
+    for ch in (0x0b, 0x0c, 0x1c, 0x1d, 0x1e):
+        # content of literals, comments and DATA items: only LF becomes CR, nothing else is a line end
+        if data.count(bytes([ch])) != case["data"].count(bytes([ch])):
+            return (f"the source has {case['data'].count(bytes([ch]))} characters {ch:#04x} (inside a literal, a comment, a DATA "
+                    f"item), the output file {data.count(bytes([ch]))}: the line-end translation touched content")
     if case["flags"][2] == "0":
         base = os.path.basename(case["name"])
         stem = os.path.splitext(base)[0]
